@@ -140,10 +140,10 @@ func genDeclSnip(r *core.RNG, c *ctr, in *Input) Snip {
 	case k < 11:
 		return block(c.text(core.Pick(r, declTexts)))
 	case k < 12:
-		return Snip{K: "comment", S: []byte(core.Pick(r, []string{"a comment", "two\nlines", "", "trailing space ", "\ttabbed", "x\n\ny", "+gengo:tag", "go:build x", "ünï"}))}
+		return Snip{K: "comment", S: []byte(core.Pick(r, []string{"a comment", "two\nlines", "", "trailing space ", "\ttabbed", "x\n\ny", "+gengo:tag", "go:embed x", "ünï"}))}
 	case k < 13:
 		return Snip{K: "snippets", Sub: []Snip{
-			{K: "directive", S: []byte(core.Pick(r, []string{"generate", "noinline", "build", ""})), A: core.Pick(r, [][]string{nil, {"echo", "hi"}, {"", "x"}, {"linux"}})},
+			{K: "directive", S: []byte(core.Pick(r, []string{"generate", "noinline", "generate", "noinline", "linkname", "build", ""})), A: core.Pick(r, [][]string{nil, {"echo", "hi"}, {"", "x"}, {"linux"}})},
 			block("\n"), block(c.text("func dr%d() {}\n"))}}
 	case k < 14:
 		return Snip{K: "snippets", Sub: []Snip{{K: "comment", S: []byte(c.text("Cm%d does things."))}, block("\n"), block(""), block(c.text("func Cm%d() {}\n"))}}
@@ -179,6 +179,7 @@ func genModule(r *core.RNG) Input {
 	nt := 1 + r.Intn(3)
 	in.Types = []string{"A", "B", "C"}[:nt]
 	in.All = r.Chance(15)
+	in.Prev = r.Chance(30)
 	return in
 }
 
@@ -246,9 +247,9 @@ func fixedCases() []Input {
 }
 
 func (prop) Generate(r *core.RNG, tier string) []json.RawMessage {
-	n := 110
+	n := 100
 	if tier == "thorough" {
-		n = 1500
+		n = 1000
 	}
 	var out []json.RawMessage
 	for _, in := range fixedCases() {
@@ -330,9 +331,9 @@ func (prop) Shrink(raw json.RawMessage) []json.RawMessage {
 		out = append(out, mkInput(c))
 	}
 	// plainer module
-	if in.ModPath != "example.com/m" || in.Dir != "p" || in.PkgName != "p" || in.Base != "zz_generated" || in.All {
+	if in.ModPath != "example.com/m" || in.Dir != "p" || in.PkgName != "p" || in.Base != "zz_generated" || in.All || in.Prev {
 		c := clone()
-		c.ModPath, c.Dir, c.PkgName, c.Base, c.All = "example.com/m", "p", "p", "zz_generated", false
+		c.ModPath, c.Dir, c.PkgName, c.Base, c.All, c.Prev = "example.com/m", "p", "p", "zz_generated", false, false
 		out = append(out, mkInput(c))
 	}
 	if in.GoVer != "1.22" {
